@@ -49,6 +49,7 @@ func (H) Gen(prop string, rng *rand.Rand, tier string) *core.Plan {
 	p.Cfg["maxfile"] = []int{0, 0, 200, 1500}[rng.Intn(4)]
 	p.Cfg["metrics"] = 1 + rng.Intn(3)
 	p.Cfg["reader"] = rng.Intn(2)
+	p.Cfg["fresh"] = rng.Intn(2) // readers that take their snapshot while the compaction runs
 	n := 3 + rng.Intn(8)
 	for i := 0; i < n; i++ {
 		switch r := rng.Intn(100); {
@@ -551,6 +552,35 @@ func runC03(c *core.RunCtx) {
 					readerDone = true
 				})
 			}
+			freshDone, compacting := true, true
+			if c.Plan.C("fresh", 0) == 1 {
+				// readers that START while the compaction runs: whatever version they meet (before the commit,
+				// after it, anything a commit in several steps would publish in between) shows the same data
+				freshDone = false
+				want := model{}
+				for k, v := range mdl {
+					want[k] = v
+				}
+				sim.Spawn("fresh-reader", func() {
+					defer func() { freshDone = true }()
+					for j := 0; j < 400 && !c.Violated() && (compacting || j < 2); j++ {
+						snap := fam.GetSnapshot()
+						obs, err := readFamily(snap, metrics, identity)
+						snap.Close()
+						if err != nil {
+							c.Violate("C03/unreadable", "snapshot taken during compaction: %v", err)
+							return
+						}
+						if !compare(c, "C03", "snapshot taken while the compaction runs", want, obs) {
+							return
+						}
+						sim.Probe("fresh-snapshot-read-during-compaction")
+						for y := sim.Tape.Choose(4); y > 0; y-- {
+							sim.YieldNow()
+						}
+					}
+				})
+			}
 			s0 := fam.GetSnapshot()
 			before := len(s0.GetCurrent().GetAllFiles())
 			s0.Close()
@@ -560,7 +590,8 @@ func runC03(c *core.RunCtx) {
 				kv.VerifStoreCompact(st)
 			}
 			awaitIdle(sim, fam)
-			sim.Await(func() bool { return readerDone })
+			compacting = false
+			sim.Await(func() bool { return readerDone && freshDone })
 			if len(sim.PanicTasks) > 0 {
 				c.Violate("C03/compaction-crashed", "the compaction goroutine panicked: %s", firstLine(sim.PanicTasks[0]))
 				return
